@@ -370,6 +370,8 @@ func (w *Worker) runItem(fn *ssa.Function, setup *ssa.Function, item *WorkItem) 
 	in.frozen = nil
 	in.freezeHits = nil
 	in.lastBlock = nil
+	in.globalWrites = nil
+	in.locksHeld = 0
 	res = &PathResult{Harness: item.Harness, Model: item.Model}
 	defer func() {
 		in.undoAll()
